@@ -92,6 +92,27 @@ def adjust_scope_table_mapping(scope, table):
             raise RuntimeError("must not happen")
 
 
+def sort_ifexp_scopes(scope, module, node_to_parent):
+
+    # symtable visits the test of a conditional expression before its body.
+    # libCST visits the body first.
+    # To maintain the correct order mapping between scope and table,
+    # the scopes in the test are moved before the scopes in the body.
+
+    def is_in(s, node):
+        n = s.node
+        while n is not node and n is not module:
+            n = node_to_parent[n]
+        return n is node
+
+    for ifexp in m.findall(module, m.IfExp()):
+        body = [i for i, s in enumerate(scope[1:], 1) if is_in(s, ifexp.body)]
+        test = [i for i, s in enumerate(scope[1:], 1) if is_in(s, ifexp.test)]
+        moved = [scope[i] for i in test + body]
+        for i, s in zip(sorted(body + test), moved):
+            scope[i] = s
+
+
 FuncAttrs = namedtuple("FuncAttrs",
                        ["name", "params", "param_str",
                         "required_params", "arg_str",
@@ -152,6 +173,8 @@ class FormulaTransformer(m.MatcherDecoratableTransformer):
         self.module = self.wrapper.module
         self.node_to_scope = n_to_s = self.wrapper.resolve(cst.metadata.ScopeProvider)
         self.scopes = list(dict.fromkeys(n_to_s.values()))
+        sort_ifexp_scopes(self.scopes, self.module,
+                          self.wrapper.resolve(ParentNodeProvider))
         self.symtables = list_symtable(source)
         adjust_scope_table_mapping(self.scopes, self.symtables)     # See comment in the function
 
